@@ -18,6 +18,7 @@ type CEnv struct {
 	allocOld *Term
 	pkg      *types.Package
 	depth    int
+	home     string // package path of the contract file the expression comes from (spec lookup starts there)
 }
 
 type CEvalError struct{ msg string }
@@ -30,6 +31,12 @@ func (x *Exec) newCEnv(st *State) *CEnv {
 	ce := &CEnv{x: x, vars: map[string]Val{}, heap: st.heap, old: x.oldHeap, alloc: st.alloc, allocOld: x.alloc0}
 	if x.fn != nil && x.fn.Pkg != nil {
 		ce.pkg = x.fn.Pkg.Pkg
+	}
+	if x.contract != nil {
+		ce.home = x.contract.Pkg
+		if hp := x.P.spkgs[ce.home]; hp != nil && x.fn != nil && x.fn.Pkg != nil && x.fn.Pkg.Pkg.Path() != ce.home {
+			// extern contract: identifiers resolve in the dependency's package, specs in the contract file's
+		}
 	}
 	for k, v := range x.params {
 		ce.vars[k] = v
@@ -221,7 +228,7 @@ func (ce *CEnv) ident(name string) Val {
 	case "nil":
 		return Val{K: VOpaque}
 	}
-	if sf := ce.x.P.spec(ce.pkg, name); sf != nil && len(sf.Params) == 0 {
+	if sf := ce.x.P.specIn(ce.home, ce.pkg, name); sf != nil && len(sf.Params) == 0 {
 		return ce.eval(sf.Body)
 	}
 	if ce.pkg != nil {
@@ -511,6 +518,21 @@ func (ce *CEnv) call(e *CExpr) Val {
 	case "max":
 		a, b := ce.evalInt(args[0]), ce.evalInt(args[1])
 		return intVal(Ite(Ge(a, b), a, b))
+	case "setfield":
+		v := ce.eval(args[0])
+		if v.K != VStruct || args[1].Op != "str" {
+			cfail("setfield(structValue, \"Field\", value)")
+		}
+		st := structFields(v.Typ)
+		nv := Val{K: VStruct, Typ: v.Typ, Fields: append([]Val{}, v.Fields...)}
+		for i := 0; i < st.NumFields(); i++ {
+			if st.Field(i).Name() == args[1].Str {
+				nv.Fields[i] = ce.eval(args[2])
+				nv.Fields[i].Typ = st.Field(i).Type()
+				return nv
+			}
+		}
+		cfail("setfield: no field %s", args[1].Str)
 	case "sameslice":
 		a, b := ce.eval(args[0]), ce.eval(args[1])
 		return boolVal(And(Eq(a.Arr, b.Arr), Eq(a.Off, b.Off), Eq(a.Len, b.Len)))
@@ -518,7 +540,7 @@ func (ce *CEnv) call(e *CExpr) Val {
 		// the term is evaluated in the current heap even inside old(): escape hatch not needed now
 	}
 	// spec function (macro)
-	if sf := ce.x.P.spec(ce.pkg, fn.Name); sf != nil {
+	if sf := ce.x.P.specIn(ce.home, ce.pkg, fn.Name); sf != nil {
 		if len(sf.Params) != len(args) {
 			cfail("spec %s expects %d arguments, got %d", sf.Name, len(sf.Params), len(args))
 		}
